@@ -405,6 +405,22 @@ class Interp:
         if module == "re" and attr in ("IGNORECASE", "I", "VERBOSE", "X", "MULTILINE", "M", "DOTALL", "S"):
             import re as _re_mod
             return int(getattr(_re_mod, attr))
+        if module == "collections" and attr == "OrderedDict":
+            def _od(it, a, k):
+                d = {}
+                if a:
+                    it.container_method(d, "update", [a[0]], {})
+                d.update(k)
+                return d
+            return PyCallable(_od)
+        if module == "collections" and attr == "Counter":
+            def _ctr(it, a, k):
+                d = {}
+                for x in (it.iterate(a[0]) if a else []):
+                    d[_h(x)] = d.get(_h(x), 0) + 1
+                d["__default_factory__"] = PyCallable(lambda i2, a2, k2: 0)
+                return d
+            return PyCallable(_ctr)
         if module == "collections" and attr == "deque":
             return PyCallable(lambda it, a, k: list(it.iterate(a[0])) if a else [])
         if module == "operator" and attr in ("add", "sub", "mul", "truediv", "neg", "itemgetter", "attrgetter", "eq", "ne", "lt", "le", "gt", "ge"):
@@ -837,6 +853,12 @@ class Interp:
             for t in st.targets:
                 if isinstance(t, ast.Name):
                     env.pop(t.id, None)
+                elif isinstance(t, ast.Subscript) and isinstance(t.slice, ast.Slice):
+                    base = self.eval(t.value, env)
+                    if not isinstance(base, list):
+                        raise Undecided("del of a slice of a non-list")
+                    lo, hi, stp = (None if x is None else _idx(self.eval(x, env)) for x in (t.slice.lower, t.slice.upper, t.slice.step))
+                    del base[lo:hi:stp]
                 elif isinstance(t, ast.Subscript):
                     base = self.eval(t.value, env)
                     k = self.eval(t.slice, env)
@@ -965,6 +987,16 @@ class Interp:
                     raise PyRaise("ValueError", target, f"unpack {len(items)} values into {len(target.elts)}")
                 for t, x in zip(target.elts, items):
                     self.assign(t, x, env)
+        elif isinstance(target, ast.Subscript) and isinstance(target.slice, ast.Slice):
+            base = self.eval(target.value, env)
+            if not isinstance(base, list):
+                raise Undecided(f"slice assignment on {type(base).__name__}")
+            sl = target.slice
+            lo, hi, st = (None if x is None else _idx(self.eval(x, env)) for x in (sl.lower, sl.upper, sl.step))
+            try:
+                base[lo:hi:st] = list(self.iterate(v))
+            except ValueError:
+                raise PyRaise("ValueError", target, "extended slice size mismatch")
         elif isinstance(target, ast.Subscript):
             base = self.eval(target.value, env)
             k = self.eval(target.slice, env)
@@ -1050,10 +1082,12 @@ class Interp:
                     parts.append(x)
                 elif isinstance(x, int) and not isinstance(x, bool) and not spec:
                     parts.append(str(x))
-                elif (isinstance(x, int) and not isinstance(x, bool) and v.conversion in (-1, None) and v.format_spec is not None
+                elif isinstance(x, str) and spec == "!r":
+                    parts.append(repr(x))
+                elif (isinstance(x, (int, float, Fraction, str)) and not isinstance(x, bool) and v.conversion in (-1, None) and v.format_spec is not None
                       and all(isinstance(c, ast.Constant) for c in v.format_spec.values)):
                     try:
-                        parts.append(format(x, "".join(str(c.value) for c in v.format_spec.values)))
+                        parts.append(format(float(x) if isinstance(x, Fraction) else x, "".join(str(c.value) for c in v.format_spec.values)))
                     except ValueError:
                         raise PyRaise("ValueError", n, "invalid format specifier")
                 else:
@@ -1381,8 +1415,12 @@ class Interp:
                 return base.f[attr]
             if attr == "__class__":
                 return base.cls
-            if attr in ("_replace", "_asdict", "_fields") and self.is_namedtuple(base.cls):
+            if attr == "_replace" and self.is_namedtuple(base.cls):
                 return PyCallable(lambda it, a, k, b=base: Rec(b.cls, {**b.f, **k}))
+            if attr == "_asdict" and self.is_namedtuple(base.cls):
+                return PyCallable(lambda it, a, k, b=base: dict(b.f))
+            if attr == "_fields" and self.is_namedtuple(base.cls):
+                return tuple(base.f)
             r = self.find_method(base.cls, attr)
             if r:
                 m, cd, fn = r
@@ -2012,7 +2050,7 @@ class Interp:
                 tot = self.binop(ast.Add(), tot, x)
             return tot
         if name in ("any", "all"):
-            items = self.iterate(a[0])
+            items = self.iter_lazy(a[0])
             syms = []
             for x in items:
                 if isinstance(x, Cond):
@@ -2066,6 +2104,10 @@ class Interp:
             return r
         if name == "dataclasses.astuple":
             return tuple(a[0].f.values())
+        if name == "dataclasses.asdict":
+            return {n: v for n, v in a[0].f.items()}
+        if name == "dataclasses.is_dataclass":
+            return isinstance(a[0], Rec) or isinstance(a[0], ClassRef)
         if name == "dataclasses.fields":
             c = a[0].cls if isinstance(a[0], Rec) else a[0]
             out = []
